@@ -183,8 +183,13 @@ def generate(R, tier, focus):
                         'seed': R.choice((None, 1, 7, 2 ** 32 - 1, R.randint(1, 10 ** 6)))})
         elif focus in ('C10', 'C18') and R.random() < 0.15:
             ops.append({'op': 'CALIBRATION', 'delta_1': R.random() < 0.5})
+        elif R.random() < 0.08:
+            # a second, different forecast on the same region is used in between (two objects alternately)
+            ops.append({'op': 'OTHER_FC', 'what': R.choice(('rates', 'rates', 'iterate', 'spatial', 'counts'))})
         else:
             ops.append({'op': R.choice(plain_ops), 'verbose': R.random() < 0.3})
+    other_cats = [_gen_catalog_events(R, region, mags, 500 + cid, R.randint(0, 4), start_ms, end_ms)
+                  for cid in range(R.randint(1, 5))]
     prelude = None
     if cfg['source'] == 'file' and R.random() < 0.3:
         # an earlier forecast that lived at the same path (other content): process-level caches keyed by path
@@ -195,6 +200,7 @@ def generate(R, tier, focus):
         probe = {'kind': R.choice(('break', 'loader_ioerror')), 'at': R.randint(0, max(0, J - 1))}
     return {'engine': 'fcsim', 'region': region, 'mags': mags, 'cats': cats, 'config': cfg,
             'start_ms': start_ms, 'end_ms': end_ms, 'obs': obs, 'ops': ops, 'probe': probe, 'prelude': prelude,
+            'other_cats': other_cats,
             'tz': R.choice(TZ_CHOICES), 'clock_us': R.randint(0, 4 * 10 ** 15)}
 
 
@@ -618,6 +624,7 @@ def _execute(scn, ctx, store, rng, clock, collect_results):
     prev_state = abstract_state(fc, J)
     ctx.state(prev_state)
     run_results = []
+    other_fc = [None]
     for oi, op in enumerate(scn['ops']):
         kind = op['op']
         label = kind if kind != 'TEST' else 'TEST:' + op['name']
@@ -712,6 +719,26 @@ def _execute(scn, ctx, store, rng, clock, collect_results):
                 if want is not None and (data.shape != want.shape or
                                          not numpy.allclose(data, want, rtol=1e-12, atol=1e-300)):
                     ctx.violate('C13', 'marginals', kind + ':not-marginal-of-mean', {'op': oi})
+        elif kind == 'OTHER_FC':
+            if scn.get('other_cats') and not cfg.get('low_mag_unfiltered') and not cfg.get('outside_unfiltered'):
+                from csep.core.forecasts import CatalogForecast
+                from csep.core import catalog_evaluations as ce_
+                if other_fc[0] is None:
+                    oreg = w.region()
+                    ocats = [build.make_catalog(evs, region=oreg, catalog_id=i, name='other')
+                             for i, evs in enumerate(scn['other_cats'])]
+                    other_fc[0] = CatalogForecast(catalogs=ocats, n_cat=len(ocats), region=oreg, name='other',
+                                                  start_time=build.utc(scn['start_ms']), end_time=build.utc(scn['end_ms']))
+                o = other_fc[0]
+                ctx.count('fire:other_forecast_' + op['what'])
+                if op['what'] == 'rates':
+                    call(o.get_expected_rates, verbose=False)
+                elif op['what'] == 'iterate':
+                    call(lambda: [c for c in o])
+                elif op['what'] == 'counts':
+                    call(o.get_event_counts, verbose=False)
+                else:
+                    call(ce_.spatial_test, o, w.obs_catalog(0, o.region), verbose=False)
         elif kind == 'CALIBRATION':
             if ctx.wants('C10') and run_results:
                 check_calibration(ctx, run_results, op, oi, collect_results)
